@@ -525,12 +525,14 @@ fn c18_t_conv_vec32() { ids32!(conv_big_body, Vec32, 32) }
 #[kani::unwind(66)]
 fn c18_t_conv_vec64() { ids64!(conv_big_body, Vec64, 64) }
 
-/// Source iterator handing out Tok(64), Tok(65), ... `count` times.
+/// Source iterator handing out Tok(64), Tok(65), ... `count` times, then `None` once. It is deliberately not fused:
+/// asked again after that `None` it would go on handing out tokens, so a consumer that keeps polling past the end
+/// is seen by the "exactly min(len, N) items were pulled" assertion.
 struct Feed { next: u8, end: u8 }
 impl Iterator for Feed {
     type Item = Tok;
     fn next(&mut self) -> Option<Tok> {
-        if self.next == self.end { None } else { self.next += 1; Some(Tok::new(self.next - 1)) }
+        if self.next == self.end { self.end = 120; None } else { self.next += 1; Some(Tok::new(self.next - 1)) }
     }
 }
 
